@@ -1,0 +1,9 @@
+//go:build !verif
+
+package cache
+
+import "io"
+
+func verifStep(name, path string) {}
+
+func verifWriter(name, path string, w io.Writer) io.Writer { return w }
